@@ -4,7 +4,9 @@ conditions of C14 / C15 are instantiated with).  All quantities are non-negative
 (`∞`-norm of the centred error polynomial).  `dsize = 1`.  Imports nothing.
 
 Derivations (one external product `a ⊡ GGSW(m)`, `m ∈ {0, 1}`, GGSW rows with key error `≤ E`):
-* gadget term `Σ_{i ≤ rank} Σ_{r < dnum} digit_{i,r}·E_{i,r}`: `‖digit‖₁ ≤ N·2^{b-1}` (balanced digits) ⇒ `(rank+1)·dnum·N·2^{b-1}·E`;
+* gadget term `Σ_{i ≤ rank} Σ_{r < dnum} digit_{i,r}·E_{i,r}`: `‖digit‖₁ ≤ N·D` with `D` the limb bound of the decomposed input — `2^b − 1` for a
+  ciphertext as the routines return it (`EpCoeff.ep_coeff`), `2·(2^b − 1)` for the difference `t − f` of a CMux (`EpCoeff.cmux_coeff`) ⇒
+  `(rank+1)·dnum·N·D·E` (the PROVED bounds; balanced digits would give `2^{b-1}`);
 * truncation: the decomposition reads the top `dnum·b` bits of the `k`-bit input; the dropped part (`< 2^{-dnum·b}/2` per coefficient
   after rounding) is multiplied by `m·σ_i`, `σ_0 = 1`, `σ_i = s_i`, `‖s_i‖₁ ≤ hw` ⇒ `(1 + rank·hw)·2^{-dnum·b-1}` (zero if `k ≤ dnum·b`);
 * normalisation: at most one unit of the result's last limb per column (`C02.normTol`) ⇒ `(1 + rank·hw)·2^{-k}`.
@@ -25,14 +27,16 @@ structure Par where
   hw : Nat
 deriving Repr
 
-def gadget (p : Par) (E : Nat) : Nat := (p.rank + 1) * p.dnum * p.n * 2 ^ (p.b - 1) * E
+/-- limb bound of a ciphertext as returned by the routines -/
+def dig (p : Par) : Nat := 2 ^ p.b - 1
+def gadget (p : Par) (D E : Nat) : Nat := (p.rank + 1) * p.dnum * p.n * D * E
 def trunc (p : Par) : Nat := if p.dnum * p.b < p.k then (1 + p.rank * p.hw) * 2 ^ (64 - p.dnum * p.b - 1) else 0
 def normU (p : Par) : Nat := (1 + p.rank * p.hw) * 2 ^ (64 - p.k)
 
 /-- one external product (`BrMachine.B`, without the block's normalisation) -/
-def epBound (p : Par) (E : Nat) : Nat := gadget p E + trunc p
+def epBound (p : Par) (E : Nat) : Nat := gadget p (dig p) E + trunc p
 /-- one CMux (`BddMachine.Bc`): external product of `t − f` + normalisation of the sum -/
-def cmuxBound (p : Par) (E : Nat) : Nat := gadget p E + trunc p + normU p
+def cmuxBound (p : Par) (E : Nat) : Nat := gadget p (2 * dig p) E + trunc p + normU p
 
 /-- blind rotation (`BrMachine.exec_spec`): `2·n_lwe·B + (#blocks)·U` -/
 def blindBound (p : Par) (nLwe blocks E : Nat) : Nat := 2 * (nLwe * epBound p E) + blocks * normU p
@@ -48,10 +52,22 @@ def wordOk (p : Par) (L E Bp : Nat) : Bool := 2 * (bddBound p L E + Bp) < bitDel
 
 /-- key error of a circuit-bootstrapped GGSW (`cbt_cell_error`): `hw·(blind + trace) + expand` -/
 def cbtErr (pBrk : Par) (nLwe blocks Ebrk Bt : Nat) (pTsk : Par) (Etsk : Nat) : Nat :=
-  pBrk.hw * (blindBound pBrk nLwe blocks Ebrk + Bt) + (gadget pTsk Etsk + trunc pTsk + normU pTsk)
+  pBrk.hw * (blindBound pBrk nLwe blocks Ebrk + Bt) + (gadget pTsk (dig pTsk) Etsk + trunc pTsk + normU pTsk)
 
 /-- numeric condition of `blind_rotation_correct` for a table encoded at `2^-logDelta` -/
 def blindOk (p : Par) (nLwe blocks E logDelta : Nat) : Bool := 2 * blindBound p nLwe blocks E < 2 ^ (64 - logDelta)
+
+/-! ### the PROVED per-CMux bound (`EpCoeff.cmux_coeff` / `CmuxMachine.Par.errBound`), in units of `2^-(b·rs + b·S)` of the torus -/
+
+/-- `2^(b·rs)·(rank+1)·dnum·(Σ_{di<dsize} 2^(b·di))·N·2·(2^b − 1)·BE + (1 + rank·hw)·normTol(b·rs, b·S)`: the ciphertexts of the evaluation
+have digits `≤ 2^b − 1` (what `cmux` returns), so the decomposed difference has limbs `≤ 2·(2^b − 1)`; `BE` = key error in units of `2^-(b·S)` -/
+def cmuxProved (n rank dnum dsize b rs S hw BE : Nat) : Nat :=
+  2 ^ (b * rs) * ((rank + 1) * (dnum * (((List.range dsize).map fun di => 2 ^ (b * di)).sum * (n * (2 * (2 ^ b - 1))) * BE)))
+    + (1 + rank * hw) * (if b * S ≤ b * rs then 0 else 2 ^ (b * S))
+
+/-- `2·L·Bc < Δ`, `Δ = 2^-2` -/
+def wordOkProved (n rank dnum dsize b rs S hw BE L : Nat) : Bool :=
+  2 * (L * cmuxProved n rank dnum dsize b rs S hw BE) < 2 ^ (b * rs + b * S - 2)
 
 /-- `⌈log2⌉`-free printing helper: the position of the highest set bit (0 for 0) -/
 def log2c (x : Nat) : Nat := if x = 0 then 0 else Nat.log2 x + 1
